@@ -53,7 +53,7 @@ func readResponsesFor(out []byte, methods []string) ([]c16Resp, []byte, error) {
 func init() {
 	Register(&Prop{
 		ID: "C16", NoShrink: true,
-		Rule: "te: ServeConn pipelines where some handlers call TimeoutError and keep mutating the ctx (GET/HEAD/POST, HTTP/1.0 keep-alive and 1.1) followed by ordinary requests; " +
+		Rule: "te: ServeConn pipelines where some handlers call TimeoutError (some after asking for a hijack, with or without HijackSetNoResponse) and keep mutating the ctx (GET/HEAD/POST, HTTP/1.0 keep-alive and 1.1) followed by ordinary requests; " +
 			"wrap: Serve + TimeoutHandler(20ms) with inner handlers parked on gates past the deadline that afterwards rewrite status, headers and body, released by the NEXT request's handler so that late writes race with the next response; " +
 			"conc: Concurrency N with N+1 connections holding slow wrapped handlers; wrapc: Concurrency 1..2, one connection, handlers that outlive their timeout and keep running while later requests arrive (status sequence = the Lean semaphore model, peak running <= N); monitor: timed-out requests get exactly the timeout status/message (no body for HEAD), no late write on the wire, later requests answered normally, " +
 			"at most N wrapped handlers inside, excess get 429; non-trivial = at least one timed-out request followed by another request; distinct = distinct input",
@@ -77,6 +77,13 @@ func init() {
 					}
 					q := fmt.Sprintf("body=own%d", i)
 					if f[2] == "1" {
+						// f[3] (optional): the handler asks for a hijack (h) / a hijack without response (n) BEFORE it times out;
+						// the request of the abandoned ctx must be ignored
+						if len(f) > 3 && f[3] == "h" {
+							q += "&hjx=1"
+						} else if len(f) > 3 && f[3] == "n" {
+							q += "&hjx=1&hjn=1"
+						}
 						q += "&te=1"
 						if i+1 < len(toks) {
 							nt = true
@@ -266,75 +273,75 @@ func init() {
 						return Ok()
 					}}
 			case "wrapc":
-			// a[0]: Concurrency N (digit); a[1]: script per request: s = the wrapped handler outlives its timeout and is
-			// still running while every later request arrives, f = returns at once.  One keep-alive connection, strictly
-			// sequential requests, so the number of wrapped handlers running at each call is known.
-			n := int(a[0][0] - '0')
-			script := string(a[1])
-			release := make(chan struct{})
-			var inside, maxInside, started atomic.Int32
-			inner := func(ctx *fasthttp.RequestCtx) {
-				started.Add(1)
-				v := inside.Add(1)
-				for {
-					m := maxInside.Load()
-					if v <= m || maxInside.CompareAndSwap(m, v) {
-						break
-					}
-				}
-				defer inside.Add(-1)
-				if ctx.QueryArgs().Has("slow") {
-					<-release
-					return
-				}
-				ctx.SetBodyString("fast")
-			}
-			s := &fasthttp.Server{Handler: fasthttp.TimeoutHandler(inner, 40*time.Millisecond, "busy or timed out"), Concurrency: n, Logger: nopLogger{}, NoDefaultDate: true, NoDefaultServerHeader: true}
-			ln := fasthttputil.NewInmemoryListener()
-			done := make(chan struct{})
-			go func() { s.Serve(ln); close(done) }()
-			var got []string
-			var rerr error
-			if c, err := ln.Dial(); err == nil {
-				br := bufio.NewReader(c)
-				for i := 0; i < len(script); i++ {
-					q := fmt.Sprintf("id=%d", i)
-					if script[i] == 's' {
-						q += "&slow=1"
-					}
-					fmt.Fprintf(c, "GET /r?%s HTTP/1.1\r\nHost: h\r\n\r\n", q)
-					c.SetReadDeadline(time.Now().Add(3 * time.Second))
-					resp, err := http.ReadResponse(br, &http.Request{Method: "GET"})
-					if err != nil {
-						rerr = err
-						break
-					}
-					io.Copy(io.Discard, resp.Body)
-					resp.Body.Close()
-					got = append(got, fmt.Sprint(resp.StatusCode))
-				}
-				c.Close()
-			}
-			peak, ran := maxInside.Load(), started.Load()
-			close(release)
-			ln.Close()
-			<-done
-			impl := strings.Join(got, " ")
-			return &Case{Lines: []string{Line("tosem", a[0], a[1])}, Impl: impl, Nontrivial: strings.Contains(script, "s") && len(script) > 1, Tags: []string{"wrapc"},
-				Judge: func(r []string) Verdict {
-					desc := fmt.Sprintf("Concurrency=%d, TimeoutHandler(40ms), one connection, script %q (s = handler still running after its timeout): statuses [%s], peak wrapped handlers running %d, handler invocations %d, err=%v", n, script, impl, peak, ran, rerr)
-					if int(peak) > n {
-						return Verdict{VSpec, "wrapped-handlers-exceed-concurrency", desc}
-					}
-					if impl != r[0] {
-						if strings.Contains(r[0], "429") {
-							return Verdict{VSpec, "excess-call-not-429", desc + "; expected [" + r[0] + "]"}
+				// a[0]: Concurrency N (digit); a[1]: script per request: s = the wrapped handler outlives its timeout and is
+				// still running while every later request arrives, f = returns at once.  One keep-alive connection, strictly
+				// sequential requests, so the number of wrapped handlers running at each call is known.
+				n := int(a[0][0] - '0')
+				script := string(a[1])
+				release := make(chan struct{})
+				var inside, maxInside, started atomic.Int32
+				inner := func(ctx *fasthttp.RequestCtx) {
+					started.Add(1)
+					v := inside.Add(1)
+					for {
+						m := maxInside.Load()
+						if v <= m || maxInside.CompareAndSwap(m, v) {
+							break
 						}
-						return Verdict{VCorr, "timeout-semaphore", desc + "; model [" + r[0] + "]"}
 					}
-					return Ok()
-				}}
-		case "conc":
+					defer inside.Add(-1)
+					if ctx.QueryArgs().Has("slow") {
+						<-release
+						return
+					}
+					ctx.SetBodyString("fast")
+				}
+				s := &fasthttp.Server{Handler: fasthttp.TimeoutHandler(inner, 40*time.Millisecond, "busy or timed out"), Concurrency: n, Logger: nopLogger{}, NoDefaultDate: true, NoDefaultServerHeader: true}
+				ln := fasthttputil.NewInmemoryListener()
+				done := make(chan struct{})
+				go func() { s.Serve(ln); close(done) }()
+				var got []string
+				var rerr error
+				if c, err := ln.Dial(); err == nil {
+					br := bufio.NewReader(c)
+					for i := 0; i < len(script); i++ {
+						q := fmt.Sprintf("id=%d", i)
+						if script[i] == 's' {
+							q += "&slow=1"
+						}
+						fmt.Fprintf(c, "GET /r?%s HTTP/1.1\r\nHost: h\r\n\r\n", q)
+						c.SetReadDeadline(time.Now().Add(3 * time.Second))
+						resp, err := http.ReadResponse(br, &http.Request{Method: "GET"})
+						if err != nil {
+							rerr = err
+							break
+						}
+						io.Copy(io.Discard, resp.Body)
+						resp.Body.Close()
+						got = append(got, fmt.Sprint(resp.StatusCode))
+					}
+					c.Close()
+				}
+				peak, ran := maxInside.Load(), started.Load()
+				close(release)
+				ln.Close()
+				<-done
+				impl := strings.Join(got, " ")
+				return &Case{Lines: []string{Line("tosem", a[0], a[1])}, Impl: impl, Nontrivial: strings.Contains(script, "s") && len(script) > 1, Tags: []string{"wrapc"},
+					Judge: func(r []string) Verdict {
+						desc := fmt.Sprintf("Concurrency=%d, TimeoutHandler(40ms), one connection, script %q (s = handler still running after its timeout): statuses [%s], peak wrapped handlers running %d, handler invocations %d, err=%v", n, script, impl, peak, ran, rerr)
+						if int(peak) > n {
+							return Verdict{VSpec, "wrapped-handlers-exceed-concurrency", desc}
+						}
+						if impl != r[0] {
+							if strings.Contains(r[0], "429") {
+								return Verdict{VSpec, "excess-call-not-429", desc + "; expected [" + r[0] + "]"}
+							}
+							return Verdict{VCorr, "timeout-semaphore", desc + "; model [" + r[0] + "]"}
+						}
+						return Ok()
+					}}
+			case "conc":
 				n := int(a[0][0] - '0') // Concurrency
 				release := make(chan struct{})
 				var inside, maxInside atomic.Int32
@@ -398,7 +405,11 @@ func init() {
 			for i := 0; i < n; i++ {
 				var toks []string
 				for j, m := 0, 1+r.Intn(5); j < m; j++ {
-					toks = append(toks, fmt.Sprintf("%s|%d|%d", r.Pick([]string{"G", "H", "P"}), r.Intn(4)/3*0+b2iC16(r.Chance(75)), b2iC16(r.Chance(40))))
+					tk := fmt.Sprintf("%s|%d|%d", r.Pick([]string{"G", "H", "P"}), r.Intn(4)/3*0+b2iC16(r.Chance(75)), b2iC16(r.Chance(40)))
+					if strings.HasSuffix(tk, "|1") && r.Chance(25) {
+						tk += "|" + r.Pick([]string{"h", "n"})
+					}
+					toks = append(toks, tk)
 				}
 				emit("te", B(strings.Join(toks, " ")))
 			}
@@ -414,18 +425,18 @@ func init() {
 				emit("wrap", sc)
 			}
 			ncw := 8
-		if tier == "thorough" {
-			ncw = 80
-		}
-		for i := 0; i < ncw; i++ {
-			var sc []byte
-			for j, m := 0, 2+r.Intn(4); j < m; j++ {
-				sc = append(sc, "ssf"[r.Intn(3)])
+			if tier == "thorough" {
+				ncw = 80
 			}
-			emit("wrapc", []byte{byte('1' + r.Intn(2))}, sc)
-		}
-		emit("wrapc", B("1"), B("sfs"))
-		emit("wrapsc", B("ff"))
+			for i := 0; i < ncw; i++ {
+				var sc []byte
+				for j, m := 0, 2+r.Intn(4); j < m; j++ {
+					sc = append(sc, "ssf"[r.Intn(3)])
+				}
+				emit("wrapc", []byte{byte('1' + r.Intn(2))}, sc)
+			}
+			emit("wrapc", B("1"), B("sfs"))
+			emit("wrapsc", B("ff"))
 			emit("conc", B("1"))
 			emit("conc", B("2"))
 		},
